@@ -310,12 +310,16 @@ class Evaluator:
             return live
         if isinstance(st, ast.Assign):
             val = self.ev(st.value, live)
+            if len(st.targets) == 1 and isinstance(st.targets[0], ast.Name):
+                val = self._alloc(st.value, val, st.targets[0].id, st)
             for t in st.targets:
                 self.assign(t, val, live, st)
             return live
         if isinstance(st, ast.AnnAssign):
             if st.value is not None:
                 val = self.ev(st.value, live)
+                if isinstance(st.target, ast.Name):
+                    val = self._alloc(st.value, val, st.target.id, st)
                 self.assign(st.target, val, live, st)
             return live
         if isinstance(st, ast.AugAssign):
@@ -381,6 +385,21 @@ class Evaluator:
         if isinstance(st, (ast.Global, ast.Nonlocal)):
             return live
         raise AnalysisError(f"unsupported statement {type(st).__name__}", site=f"{self.module.relpath}:{st.lineno}")
+
+    def _alloc(self, node, val, name, st):
+        """An empty list/dict/set bound to a local is a fresh mutable accumulator: give it an identity so that
+        several accumulators in one function stay distinguishable (`a = []; b = []; a.append(x)`)."""
+        kind = None
+        if isinstance(node, ast.List) and not node.elts:
+            kind = "list"
+        elif isinstance(node, ast.Dict) and not node.keys:
+            kind = "dict"
+        elif isinstance(node, ast.Call) and not node.args and not node.keywords and isinstance(node.func, ast.Name) \
+                and node.func.id in ("list", "dict", "set") and node.func.id not in self.env:
+            kind = node.func.id
+        if kind is None:
+            return val
+        return ("alloc", kind, f"{name}@{st.lineno}")
 
     def assign(self, target, val, live, st):
         if isinstance(target, ast.Name):
@@ -953,6 +972,8 @@ def show(t, depth=0) -> str:
         return "*" + show(t[1], d)
     if k == "inloop":
         return f"in {t[1]}"
+    if k == "alloc":
+        return f"<{t[1]} {t[2].split('@')[0]}>"
     if k == "caught":
         return f"caught {'/'.join(t[2])}"
     return k + "(" + ", ".join(show(x, d) if isinstance(x, tuple) else str(x) for x in t[1:]) + ")"
